@@ -21,6 +21,9 @@ CLAIMS = {
  "C05": (TECH,
          "Same stub with the menu extended by KeyboardInterrupt, GeneratorExit, a direct BaseException subclass and an internal-fault switch: CrossHair confirms over all paths that after run/call/evaluate returns or raises, sys.stdout, time.sleep and the sys.modules key set are as before and the sandbox's stacks are empty, and (two-step histories) that the next execution captures exactly its own output.",
          "exec stub; tracer styles and timeouts outside the claim; CrossHair/z3 models", "DESIGN.md §3 C05"),
+ "C07": (TECH2,
+         "Relation kernels of 30 assertion classes decided by CrossHair over unbounded symbolic operands (doubles, ints, strings, lists, mixed scalars); the float tolerance decided for all reals by z3 on the AST translation of equality_test and on an IEEE grid; the public calls with every raw/proxy combination, error operands, presentation keywords and unit_test() decided over small grids. NaN, regex/output/type assertions are outside the claim; relations that raise are a recorded known finding.",
+         "mixed int/float arithmetic over the reals (E2) + concrete IEEE grid; proxied calls run untraced on concrete values; harness oracles", "DESIGN.md §3 C07"),
  "C12": (TECH,
          "With the parser replaced by a stub raising error objects whose position attributes are symbolic within the shapes harvested from CPython on every run, CrossHair confirms over all paths (files <= 3 lines, section offsets <= 2, 3 exception classes) that verify never raises, reports exactly one syntax feedback on CPython's line shifted by the section offset, and stores the parser's tree on acceptance. The parser's own accept/reject decision is CPython's and is not re-verified.",
          "parser stub constrained to harvested shapes; CrossHair/z3 models; harness oracle", "DESIGN.md §3 C12"),
